@@ -103,6 +103,8 @@ impl UnaryOp {
 pub(crate) enum Expr {
     Number(i64),
     Variable(String),
+    /// A name that refers to a variable in scope at the point of use; it never means a signal
+    LocalVariable(String),
     BinOp {
         op: BinOp,
         left: Box<Expr>,
@@ -122,7 +124,7 @@ impl Display for Expr {
     fn fmt(&self, f: &mut std::fmt::Formatter<'_>) -> std::fmt::Result {
         match self {
             Self::Number(n) => write!(f, "{n}"),
-            Self::Variable(s) => write!(f, "{s}"),
+            Self::Variable(s) | Self::LocalVariable(s) => write!(f, "{s}"),
             Self::BinOp { op, left, right } => write!(f, "({left} {op} {right})"),
             Self::UnaryOp { op, expr } => write!(f, "{op}{expr}"),
             Self::Func { name, args } => {
@@ -201,7 +203,7 @@ impl Expr {
     pub(crate) fn names(&self) -> Vec<&str> {
         match self {
             Self::Number(_) => vec![],
-            Self::Variable(name) => vec![name],
+            Self::Variable(name) | Self::LocalVariable(name) => vec![name],
             Self::UnaryOp { op: _, expr } => expr.names(),
             Self::BinOp { op: _, left, right } => [left.names(), right.names()].concat(),
             Self::Func { name: _, args } => args.iter().flat_map(Self::names).collect(),
@@ -221,6 +223,9 @@ impl Expr {
                     Err(ExprErrorKind::UnexpectedValueForSignal(name.clone(), value).into())
                 }
             }
+            Self::LocalVariable(name) => ctx
+                .get_var(name)
+                .ok_or_else(|| ExprErrorKind::VariableNotAssigned(name.clone()).into()),
             Self::UnaryOp { op, expr } => Ok(op.eval(expr.eval(ctx)?)),
             Self::BinOp { op, left, right } => {
                 let (left, right) = (left.eval(ctx)?, right.eval(ctx)?);
